@@ -191,7 +191,7 @@ pub fn run_once(program: &Program, prefix: &[u32]) -> Execution {
     let t_start = Instant::now();
     assert!(program.actors.len() <= crate::sched::MAX_ACTORS);
     let stats_before = quiesce();
-    let tables = Arc::new(Tables { t0: Some(Instant::now()), ..Default::default() });
+    let tables = Arc::new(Tables { t0: Some(Instant::now()), lazy_closures: program.name.contains("-lazy"), ..Default::default() });
     {
         let mut w = s.world();
         w.active = true;
